@@ -42,6 +42,7 @@ def run(ctx: Ctx) -> None:
     orbits.rule_automorph(ctx)
     orbits.rule_iso_finder_bounds(ctx)
     orbits.rule_distinct_sources(ctx)
+    orbits.rule_member_search(ctx)
     orbits.rule_iso_bounded(ctx)
     orbits.rule_prefix_set(ctx)
     orbits.rule_iso_input_first(ctx)
@@ -55,6 +56,7 @@ def run(ctx: Ctx) -> None:
 
 
 KNOCKOUTS = [
+    Knockout("member-search-first-candidate-decides", RELABEL, sub_once("        if check(graph, g):\n            iso = True\n            break\n", "        if g.number_of_edges() == graph.number_of_edges():\n            return check(graph, g)\n"), "distinct.member-search", "first member"),
     Knockout("depth-first-orbit-appends-along-paths", RELABEL, sub_once("    for lc_ops in path_set:\n        new_g = g\n        for x in lc_ops:\n            new_g = local_comp_graph(new_g, x)\n        orbit_list.append(new_g)\n", "    for lc_ops in path_list:\n        new_g = g\n        for x in lc_ops:\n            new_g = local_comp_graph(new_g, x)\n            orbit_list.append(new_g)\n"), "distinct.prefix-set", "along every path"),
     Knockout("iso-finder-plain-return-uncut", RELABEL, sub_once("            return adj_arr[:n_iso], mapping\n        return adj_arr[:n_iso]\n", "            return adj_arr[:n_iso], mapping\n        return adj_arr\n"), "iso.bounded", "unbounded return"),
     Knockout("orbit-finder-keeps-input-beside-scrambled-start", RELABEL, sub_once("        orbit_list = [new_g]\n", "        orbit_list.append(new_g)\n"), "distinct.source", "untested append"),
